@@ -24,6 +24,12 @@ ENGINES = [
         "kind_free_text": "assume-guarantee check of the World-level glue over nightly MIR: callees replaced by contracts established by the Kani harness groups, ghost counters rows/active/len, obligations decided by z3 and cvc5; counterexamples replayed by native public-API scenarios",
     },
     {
+        "name": "E3d entrybits",
+        "path": "/verif/smt/entrybits.py",
+        "serves_properties": ["C01", "C13"],
+        "kind_free_text": "nightly MIR of Entry::add / Entry::remove executed symbolically (bit-vector SMT, symbolic registry length and component position, all other callees abstracted): the identifier of the destination table is the source identifier with exactly the component's bit set / cleared; z3 decides, cvc5 cross-checks; counterexamples replayed by an exhaustive native public-API scenario for registry lengths 1,2,3,4,8,9",
+    },
+    {
         "name": "E2 models",
         "path": "/verif/models",
         "serves_properties": [],
@@ -112,9 +118,9 @@ PLAN["C13"] = {
     "level_note": KANI_NOTE + ARCH_NOTE,
 }
 
-PLAN["C01"]["quick"] += ["world_q_"]
+PLAN["C01"]["quick"] += ["world_q_", "worldop_q_"]
 PLAN["C01"]["thorough"] += ["world_t_"]
-PLAN["C13"]["quick"] += ["world_q_", "allocc_q_", "tbl_q_", "allocs_q_"]
+PLAN["C13"]["quick"] += ["world_q_", "allocc_q_", "tbl_q_", "allocs_q_", "worldop_q_"]
 PLAN["C13"]["thorough"] += ["world_t_", "allocc_t_", "tbl_t_", "allocs_t_"]
 PLAN["C13"]["stubs"] = ["hashbrown -> /verif/models/hashbrown (E2) for the world_/allocc_ harnesses", "fnv -> constant hasher (hash values are ignored by the hashbrown model)"]
 PLAN["C02"]["quick"] += ["world_q_"]
@@ -124,10 +130,10 @@ PLAN["C04"]["thorough"] += ["clone_t_", "clonefrom_t_"]
 PLAN["C05"]["thorough"] += ["clone", "view_", "entryq_"]
 
 PLAN["C03"] = {
-    "quick": ["filt_q_", "view_q_", "entryq_q_"],
-    "thorough": ["view_t_", "entryq_t_"],
+    "quick": ["filt_q_", "view_q_", "entryq_q_", "entries_q_"],
+    "thorough": ["view_t_", "entryq_t_", "entries_t_"],
     "bounds": {"quick": "registry<=4 (+9 for the filter family), rows<=3, view lists<=5", "thorough": "same, more view orders and shapes"},
-    "outside": ["result::Iter chaining across archetypes and its size_hint (does not fit in memory even for 2 archetypes x 1 row; its per-archetype steps filter, view+reshape, iterate are checked separately)", "query-time Entries", "mutation through views followed by re-reads (address equality is checked instead)", "hash-order dependent interleavings of archetypes"],
+    "outside": ["result::Iter chaining across archetypes and its size_hint (does not fit in memory even for 2 archetypes x 1 row; its per-archetype steps filter, view+reshape, iterate are checked separately)", "query-time Entries beyond the instantiated sub/super view pairings", "mutation through views followed by re-reads (address equality is checked instead)", "hash-order dependent interleavings of archetypes"],
     "stubs": ["hashbrown -> /verif/models/hashbrown (E2) for entryq_", "fnv -> constant hasher"],
     "level_text": "Bounded model checking: every filter form is compared with a reference predicate for a symbolic identifier (all component sets of the registry at once); every reference yielded by Archetype::view+reshape and by Entry::query is compared by address with the cell of exactly that component and row, optional views are None iff the bit is clear, one result per row, size_hint brackets the remaining count before every next().",
     "level_note": KANI_NOTE + ARCH_NOTE,
@@ -193,6 +199,7 @@ PLAN["C06"] = {
     "level_note": KANI_NOTE + ARCH_NOTE,
     "timeout": {"quick": 900, "thorough": 3600},
 }
+PLAN["C13"]["timeout"] = {"quick": 900, "thorough": 1800}
 
 PLAN["C11"] = {
     "quick": ["serbad_q_", "allocde_q_", "identde_q_"],
@@ -246,9 +253,10 @@ PLAN["C05"]["quick"] += ["bitwalk_q_len8", "bitwalk_q_len9"]
 PLAN["C16"]["thorough"] += ["rsrc_t_clone"]
 
 GLUE_TEXT = " E3c: the World-level glue (World::insert/extend/remove/clear, Entry::add/remove) is checked compositionally over its MIR: callees replaced by the contracts the harness groups above establish, `stored rows == active slots == len` and the specified new count proved for every path (z3 + cvc5)."
+BITS_TEXT = " E3d: the component-set arithmetic of Entry::add/remove (which table the entity moves to) is bit-exact for every registry length < 2^32 and every component position (MIR to bit-vector SMT)."
 for _pid in ("C13", "C01"):
-    PLAN[_pid]["smt"] = ["glue"]
-    PLAN[_pid]["level_text"] += GLUE_TEXT
+    PLAN[_pid]["smt"] = ["glue", "entrybits"]
+    PLAN[_pid]["level_text"] += GLUE_TEXT + BITS_TEXT
     PLAN[_pid]["level_note"] += " E3c trusts its MIR-subset translator and the stated callee contracts."
     PLAN[_pid]["outside"] = [o for o in PLAN[_pid]["outside"] if "World-level glue" not in o] + ["World-level glue other than through E3c's counter abstraction (values and identities at World level are argued from the archetype-level harnesses)"]
 
@@ -256,6 +264,7 @@ TECH = {
     "tables": "z3/cvc5 over the schedule's conflict tables re-extracted from the source (E3a), counterexamples replayed through rustc's trait resolution",
     "bitwalk": "nightly MIR of the identifier bit walkers translated to bit-vector SMT for a symbolic registry length (E3b, z3+cvc5)",
     "glue": "assume-guarantee symbolic execution of the World-level glue's MIR over callee contracts (E3c, z3+cvc5)",
+    "entrybits": "symbolic execution of the identifier bit arithmetic in Entry::add/remove's MIR for a symbolic registry (E3d, z3+cvc5)",
 }
 for _pid, _p in PLAN.items():
     _t = "bounded model checking of the compiled Rust code by Kani/CBMC (SAT verdict over symbolic inputs within concrete shapes)"
@@ -335,7 +344,7 @@ def run_smt(engine, repo, tier, scratch):
     import sys
 
     verif = os.path.dirname(os.path.dirname(os.path.abspath(__file__)))
-    script = {"tables": "tables.py", "bitwalk": "bitwalk.py", "glue": "glue.py"}[engine]
+    script = {"tables": "tables.py", "bitwalk": "bitwalk.py", "glue": "glue.py", "entrybits": "entrybits.py"}[engine]
     p = subprocess.run(["python3-vt", os.path.join(verif, "smt", script), repo, tier], stdout=subprocess.PIPE, stderr=subprocess.PIPE, text=True)
     try:
         r = json.loads(p.stdout)
@@ -357,7 +366,21 @@ def run_smt(engine, repo, tier, scratch):
                 # (every kind pair on one component / resource, and two-view lists); a reproduced
                 # counterexample makes at least one of them fail
                 harness = "stagepair_q_"
-            if engine == "glue":
+            if engine == "entrybits":
+                # replay against the real code: exhaustive public-API scenario over registry lengths 1,2,3,4,8,9
+                import shutil
+
+                w = os.path.join(scratch, "w")
+                shutil.copy(os.path.join(verif, "harness", "native", "entrybits_replay.rs"), os.path.join(w, "tests", "entrybits_replay.rs"))
+                env = dict(os.environ)
+                env["CARGO_NET_OFFLINE"] = "true"
+                env.pop("RUSTFLAGS", None)
+                t = subprocess.run(["cargo", "test", "--offline", "--test", "entrybits_replay"], cwd=w, env=env, stdout=subprocess.PIPE, stderr=subprocess.STDOUT, text=True)
+                ran = "Running tests/entrybits_replay.rs" in t.stdout
+                v["reproduced"] = ran and t.returncode != 0 and v.get("small_len") in (1, 2, 3, 4, 8, 9)
+                v["replay_detail"] = [l for l in t.stdout.splitlines() if "panicked" in l or "test result" in l or l.startswith("test ") or "component" in l][:20]
+                v["replay_harness"] = "harness/native/entrybits_replay.rs (cargo test --test entrybits_replay)"
+            elif engine == "glue":
                 # replay against the real code: public-API scenarios (one per glue function and path)
                 # with an audit of len / contains / stored rows after every operation, run natively
                 import shutil
